@@ -1,7 +1,7 @@
 #!/bin/sh
 # usage: ./try_seed.sh <seed-dir> <prop...>   applies <seed-dir>/patch.diff to /repo, runs the checks, reverts
 d=$1; shift
-git -C /repo apply "$d/patch.diff" || exit 2
+git -C /repo apply "$(realpath $d)/patch.diff" || exit 2
 (cd /repo && GOFLAGS=-mod=mod GOPROXY=off GOSUMDB=off go test -vet=off -count=1 ./... 2>&1 | grep -v "no test files" | tr '\n' ' '); echo
 for p in "$@"; do ./check $p quick 2>&1 | head -4; done
 git -C /repo checkout -- .
